@@ -419,11 +419,15 @@ impl ChunkedAdjacency {
 
     /// Marks an edge as deleted.
     pub fn mark_deleted(&self, src: NodeId, edge_id: EdgeId) {
+        // A deletion can overtake the insertion it belongs to (the edge is in the
+        // edge table before it is linked): remember the tombstone even when the
+        // node has no list yet, so that the late insertion stays invisible.
         let mut lists = self.lists.write();
-        if let Some(list) = lists.get_mut(&src) {
-            list.mark_deleted(edge_id);
-            self.deleted_count.fetch_add(1, Ordering::Relaxed);
-        }
+        lists
+            .entry(src)
+            .or_insert_with(AdjacencyList::new)
+            .mark_deleted(edge_id);
+        self.deleted_count.fetch_add(1, Ordering::Relaxed);
     }
 
     /// Returns all neighbors of a node.
@@ -498,7 +502,9 @@ impl ChunkedAdjacency {
 
     /// Returns the number of active (non-deleted) edges.
     pub fn active_edge_count(&self) -> usize {
-        self.edge_count.load(Ordering::Relaxed) - self.deleted_count.load(Ordering::Relaxed)
+        self.edge_count
+            .load(Ordering::Relaxed)
+            .saturating_sub(self.deleted_count.load(Ordering::Relaxed))
     }
 
     /// Returns the number of nodes with adjacency lists.
